@@ -92,3 +92,37 @@ def entry_variants(values, cplx, idx=0, full=False):
     if full or len(allv) <= 2:
         return allv
     return [allv[0], allv[1 + idx % (len(allv) - 1)]]
+
+
+def live_object_dev(make, changes, outputs=('psd', 'ar', 'reflection', 'rho', 'ma')):
+    """Class form on a second computation: build an object with make(**kw0), read its psd, then apply the
+    attribute changes one at a time (reading psd after each) and return the largest relative deviation between
+    the live object's outputs and those of a fresh object built with the final attribute values.
+    changes: list of (attribute, value, constructor keyword)."""
+    import numpy as np
+    p = make()
+    p.psd
+    kw = {}
+    worst = 0.0
+    for attr, val, key in changes:
+        kw[key] = val
+        try:
+            q = make(**kw)
+            fresh = np.array(q.psd)
+        except Exception:
+            return None            # the estimator itself refuses these values (degenerate data): nothing to compare
+        setattr(p, attr, val)
+        live = np.array(p.psd)
+        if live.shape != fresh.shape:
+            return float('inf')
+        pairs = [(live, fresh)]
+        for o in outputs[1:]:
+            a, b = getattr(p, o, None), getattr(q, o, None)
+            if a is not None and b is not None:
+                pairs.append((np.atleast_1d(np.asarray(a)), np.atleast_1d(np.asarray(b))))
+        for a, b in pairs:
+            if a.shape != b.shape:
+                return float('inf')
+            sc = max(float(np.max(np.abs(b))), 1e-300)
+            worst = max(worst, float(np.max(np.abs(a - b))) / sc)
+    return worst
